@@ -112,6 +112,7 @@ def run(chk):
     C.ensure_harness()
     specs = gen(chk)
     results = clientrun.run_scenarios(chk, [x[1] for x in specs])
+    clientrun.warm_correspondence(chk, [x[1] for x in specs])
     for (kind, s, exp), (impl, model, mcase) in zip(specs, results):
         nontriv = kind != "subset" or bool(exp["expired"])
         chk.seen(mcase, nontriv)
